@@ -486,8 +486,17 @@ fn c19_malformed<H: Hasher>(n: usize, hname: &str) -> Outcome {
                 "drop_index"
             },
             8 => {
-                idx2.push(tape::f("malformed.newidx", 2 * n as u64) as usize);
-                "extra_index"
+                if tape::f("malformed.idx_kind", 2) == 0 {
+                    idx2.push(tape::f("malformed.newidx", 2 * n as u64) as usize);
+                    "extra_index"
+                } else if !idx2.is_empty() {
+                    // an index no tree can have: arithmetic on it must not overflow into a panic
+                    let k = tape::f("malformed.hugepos", idx2.len() as u64) as usize;
+                    idx2[k] = [usize::MAX, usize::MAX - 1, usize::MAX / 2 + 1, 1 << 63, (1 << 63) - 1, usize::MAX - n][tape::f("malformed.huge", 6) as usize];
+                    "huge_index"
+                } else {
+                    "extra_index"
+                }
             },
             9 => {
                 idx2.clear();
